@@ -231,6 +231,22 @@ def check(run):
                 sig = 'gzip-rules:%s' % r_['ae']
             run.violation(sig, 'stack %r scenario %s Accept-Encoding %s: %r' % (r_['_stack'], r_['_scen'], r_['ae'], o),
                           {'leg': 'L2', 'record': r_})
+    beyond_property_legs(run, quick)
+
+
+def beyond_property_legs(run, quick):
+    """ParamMw.tla and CacheReval.tla: what the parameter / context / cache middlewares are FOR (no listed property says
+    it).  Bound to the code like everything else, but never gating: outcomes go to notes.beyond_property, differences are
+    printed as BEYOND-PROPERTY lines, and a failure of these legs themselves is recorded, not raised."""
+    out = []
+    for modname in ('parammw', 'cachereval'):
+        try:
+            mod = __import__(modname)
+            out.append(mod.leg(run, quick))
+        except Exception as e:  # noqa
+            out.append({'spec': modname, 'gating': False, 'error': repr(e)[:300]})
+            print('BEYOND-PROPERTY: %s leg could not run: %r' % (modname, e))
+    run.notes['beyond_property'] = out
 
 
 def replay(run, path):
